@@ -197,7 +197,7 @@ func c20BuildSource(t *testing.T, rt *rapid.T) *c20Source {
 	src.contactGroups = len(contacts)
 	// let the service's own background writers (device announcement, secrets) finish: the log lengths stop changing
 	stable, last := 0, -1
-	for i := 0; i < 200 && stable < 5; i++ {
+	for i := 0; i < 600 && stable < 20; i++ {
 		n := 0
 		svc.lock.RLock()
 		for _, gc := range svc.openedGroups {
